@@ -295,11 +295,11 @@ R_INIT = "non-trivial = the simulation moved the state away from the initial dat
 
 SUBCHECKS = [
     _sub("observation_metamorphic_nojit", lambda: case_strategy("nojit", min_trackers=1),
-         check_metamorphic, "nojit", 2400, 40000, 5, R_META),
+         check_metamorphic, "nojit", 2000, 40000, 6, R_META),
     _sub("step_time_accounting_nojit", lambda: case_strategy("nojit"),
-         check_accounting, "nojit", 2400, 40000, 4, R_ACCT),
+         check_accounting, "nojit", 2000, 40000, 5, R_ACCT),
     _sub("initial_state_untouched_nojit", lambda: untouched_strategy("nojit"),
-         check_untouched, "nojit", 800, 12000, 2, R_INIT),
+         check_untouched, "nojit", 600, 12000, 2, R_INIT),
     _sub("observation_metamorphic_jit", lambda: case_strategy("jit", min_trackers=1, max_trackers=3),
          check_metamorphic, "jit", 12, 200, 2, R_META),
     _sub("step_time_accounting_jit", lambda: case_strategy("jit", max_trackers=3),
@@ -307,3 +307,5 @@ SUBCHECKS = [
     _sub("initial_state_untouched_jit", lambda: untouched_strategy("jit"),
          check_untouched, "jit", 8, 100, 1, R_INIT),
 ]
+# jit samples first: they are the long pole, the runner starts jobs in list order
+SUBCHECKS.sort(key=lambda sc_: sc_.mode != "jit")
